@@ -18,6 +18,7 @@ func init() { runners["C17"] = runC17 }
 type c17gen struct {
 	r    *Rng
 	hist map[string]int
+	unmodelled bool // also plant faults the evaluator model has no builtin for (read-string)
 }
 
 // module builds a text "(do <forms>)" with one planted fault; returns the text, the fault's
@@ -54,6 +55,12 @@ func (g *c17gen) module() (text string, faultLine, fs, fe int, desc string) {
 		filler()
 	}
 	fault := []string{"(undefined-sym 1)", "undefined-bare", "(throw \"boom\")", "(throw {:code 7})", "(first 5)", "(nth [1] 9)", "(assert false)", "(assert nil \"msg\")", "(+ 1 \"s\")"}[g.r.Intn(9)]
+	if g.unmodelled && g.r.Intn(3) == 0 {
+		// the failing form is read at run time from a string (positions relative to that string, no module): the error must
+		// still be attributed to the place IN THIS MODULE that evaluated it
+		g.hist["fault-read-from-string-at-run-time"]++
+		fault = []string{`(eval (read-string "(undefined-sym 1)"))`, `(eval (read-string "\n\n\n\n\n\n\n\n\n\n\n\n(first 5)"))`, `(eval (read-string "(throw {:code 7})"))`, `(eval (first (read-string "[(nth [1] 9)]")))`}[g.r.Intn(4)]
+	}
 	desc = fault
 	viaFn := g.r.Intn(3) == 0 && fault != "undefined-bare"
 	wrap := g.r.Intn(10)
@@ -177,6 +184,7 @@ func runC17(tier string, seed uint64, rep *Report) {
 		panic(err)
 	}
 	defer os.RemoveAll(dir)
+	g.unmodelled = true
 	for i := 0; i < nf; i++ {
 		text, fl, fs, fe, desc := g.module()
 		k := g.r.Intn(4)
@@ -184,7 +192,7 @@ func runC17(tier string, seed uint64, rep *Report) {
 		for j := 0; j < k; j++ {
 			lead += []string{"", "   ", "\t"}[g.r.Intn(3)] + "\n"
 		}
-		path := filepath.Join(dir, fmt.Sprintf("m%d.lisp", i))
+		path := filepath.Join(dir, fmt.Sprintf([]string{"m%d.lisp", "my module %d.lisp", "a  b c (%d).lisp", "m%d"}[g.r.Intn(4)], i)) // file names with blanks are file names
 		if err := os.WriteFile(path, []byte(lead+text+"\n"), 0o644); err != nil {
 			panic(err)
 		}
@@ -204,7 +212,7 @@ func runC17(tier string, seed uint64, rep *Report) {
 		if m != 1 || b < fs+k || e > fe+k || b > fl+k || e < fl+k {
 			rep.Violate(idx, fmt.Sprintf("load-file of a file with %d leading blank lines: wrong position for fault %s: reported rows %d..%d, the fault is on line %d (form spanning %d..%d)", k, desc, b, e, fl+k, fs+k, fe+k), lead+text)
 		} else if p, ok := o.Err.(interface{ Position() *types.Position }); ok && (p.Position().Module == nil || *p.Position().Module != path) {
-			rep.Violate(idx, fmt.Sprintf("load-file: the position names module %v, the fault is in %s", p.Position().Module, path), lead+text)
+			rep.Violate(idx, fmt.Sprintf("load-file: the position names module %q, the fault is in %q", fmt.Sprint(func() string { if p.Position().Module == nil { return "<nil>" }; return *p.Position().Module }()), path), lead+text)
 		}
 	}
 	// ---- two texts read one after the other under ONE cursor variable whose name the host changes in between: an
